@@ -940,8 +940,14 @@ class RetrySender(object):
         self.pkt_type = pkt_type
         self.payload = payload
         self.callback = callback
+        self.acked = False
 
     def __call__(self, success):
+        # the message can be in flight in more than one datagram.
+        # only the first ack is reported, later acks or timeouts are ignored
+        if self.acked:
+            return
+
         # keep re-trying until it succeeds
         if not success:
 
@@ -950,8 +956,10 @@ class RetrySender(object):
 
             self.conn.outgoing_messages.append(msg)
 
-        elif self.callback:
-            self.callback(True)
+        else:
+            self.acked = True
+            if self.callback:
+                self.callback(True)
 
 class Bytes(bytes):
     seq = SeqNum()
